@@ -32,9 +32,8 @@ fn arg(name: &str) -> Option<String> {
 
 fn c08() {
     let n: usize = arg("--n").and_then(|s| s.parse().ok()).unwrap_or(2);
-    let tasks: Vec<TaskKind> = arg("--tasks").unwrap_or_default().chars().map(kind_from).collect();
     let script = script_from(arg("--script").and_then(|s| s.parse().ok()).unwrap_or(0));
-    let sc = Scenario { n, tasks, script };
+    let sc = Scenario::parse(n, &arg("--tasks").unwrap_or_default(), script);
     silence_task_panics();
     humphrey::verif::set_failpoint_handler(fp_handler);
     let log = Log::new();
